@@ -13,7 +13,7 @@ git stash -q -- pyscsi; PYTHONPATH=$W /venv/bin/python demo.py >/dev/null 2>&1; 
 echo "tests: $T | demo with change: exit $WITH | without: exit $WITHOUT"
 RES=""
 for ID in ${IDS//,/ }; do
-  R=$(VERIF_REPO=$W python3 /verif/tools/check.py $ID --tier quick 2>&1 | grep -E "VIOLATION|OK property|INFRA" | head -2 | tr '\n' ' ')
+  R=$(VERIF_REPO=$W timeout 1900 python3 /verif/tools/check.py $ID --tier quick 2>&1 | grep -E "VIOLATION|OK property|INFRA" | head -2 | tr '\n' ' ')
   echo "  $ID: $R"
   RES="$RES$ID: $R; "
 done
